@@ -151,7 +151,43 @@ def graphtage_site(exc: BaseException) -> str:
         fn = fr.filename.replace("\\", "/")
         if "/graphtage/" in fn and "/gsim/" not in fn:
             site = f"{os.path.basename(fn)}:{fr.name}"
+    if tb:
+        last = tb[-1].filename.replace("\\", "/")
+        if "/gsim/" in last and not last.endswith("/gsim/seams.py"):
+            # raised by the harness' own code (e.g. a reach-probe wrapper that no longer fits a refactored private
+            # helper), even if graphtage frames are on the stack: never a verdict about graphtage
+            site = None
     return f"{type(exc).__name__}@{site or 'outside-graphtage'}"
+
+
+def count_calls(cls, name, counter, key, depth_key=None):
+    """Reach probe: counts calls of a (private) method from outside WITHOUT assuming its signature, its kind or even
+    its existence.  Static / class methods, properties and missing names are left alone (the probe then stays at zero,
+    which the evidence reports); the wrapper passes every argument through untouched."""
+    import types
+    raw = cls.__dict__.get(name)
+    if not isinstance(raw, types.FunctionType) or getattr(raw, "_gsim_probe", False):
+        return False
+
+    def probe(*args, **kwargs):
+        counter[key] = counter.get(key, 0) + 1
+        if depth_key is None:
+            return raw(*args, **kwargs)
+        counter["_depth"] = counter.get("_depth", 0) + 1
+        if counter["_depth"] > counter.get(depth_key, 0):
+            counter[depth_key] = counter["_depth"]
+        try:
+            return raw(*args, **kwargs)
+        finally:
+            counter["_depth"] -= 1
+    probe._gsim_probe = True
+    probe.__name__ = getattr(raw, "__name__", name)
+    probe.__doc__ = getattr(raw, "__doc__", None)
+    try:
+        setattr(cls, name, probe)
+    except (AttributeError, TypeError):
+        return False
+    return True
 
 
 def short_tb(exc: BaseException, limit=6) -> str:
